@@ -51,6 +51,15 @@ func c18Cases(tier string, visit func(blkkit.Case)) {
 				for _, end := range []string{"stop", "shutdown", "peersclose-stop"} {
 					visit(blkkit.Case{Cfg: cfg, Hist: h, End: end})
 				}
+				// a connection that the listener's pending Accept still returns after the stopping
+				// call has closed the listener (Accept and Close race): it must not be left open.
+				// Only where the engine accepts from the given listener itself (in IOModMixed the
+				// listener mux sits in between and owns that race).
+				if (mode == "blocking" || mode == "nonblocking") && !cfg.TCP && !cfg.Async && (len(h) <= 1 || tier == "thorough") {
+					for _, end := range []string{"stop-late", "shutdown-late"} {
+						visit(blkkit.Case{Cfg: cfg, Hist: h, End: end})
+					}
+				}
 			}
 		}
 	}
